@@ -628,6 +628,7 @@ package template
 //@   ensures state: a.state != stateError && b.state != stateError && r.state != stateError ==> (r.state == a.state && r.delim == a.delim) || (r.state == nudgest(a.state) && r.delim == nudgedl(a.state, a.delim))
 //@   ensures ambiguous: a.state != stateError && b.state != stateError && r.state != stateError && !seqeq(a.attr.value, b.attr.value) ==> r.attr.ambiguousValue
 //@   ensures carried: a.state != stateError && b.state != stateError && r.state != stateError && (a.attr.ambiguousValue || b.attr.ambiguousValue) ==> r.attr.ambiguousValue
+//@   ensures wfout: WF(a) && WF(b) ==> WF(r)
 //@   ensures errcarries: r.state == stateError ==> !isnil(r.err) || a.state == stateError || b.state == stateError
 
 //@ func isComment(s state) (r bool)
@@ -643,6 +644,8 @@ package template
 //@   option modifies map[int]opaque#dom map[int]opaque#val
 //@   requires wf: c.state <= stateError && c.delim <= delimSpaceOrTagEnd && (c.delim != delimNone ==> c.state == stateAttr) && (c.state == stateText ==> !isspecial(c.element.name))
 //@   ensures wfout: r.state <= stateError && r.delim <= delimSpaceOrTagEnd && (r.delim != delimNone ==> r.state == stateAttr) && (r.state == stateText ==> !isspecial(r.element.name))
+//@   ensures editkeys: old(EDITKEYS(e)) && EDITMAPSDISTINCT(e) ==> EDITKEYS(e)
+//@   ensures onlymaps: onlyobjects("map[int]opaque#dom map[int]opaque#val", e.textNodeEdits)
 //@   loop 1
 //@     invariant 0 <= written && written <= i && i <= len(s) && len(b) == slen(seq(b))
 //@     invariant c.state <= stateError && c.delim <= delimSpaceOrTagEnd && (c.delim != delimNone ==> c.state == stateAttr) && (c.state == stateText ==> !isspecial(c.element.name))
